@@ -17,8 +17,13 @@ Judged offline from the records:
  (d) ONE AT A TIME  no MAIL while the previous transaction is open, no transaction mixing two envelopes,
                 RSET between a failed transaction and the next MAIL on the same connection
  (e) DEQUE      queue.sema.counter == len(queue) whenever the harness greenlet looks
- (f) SAFETY     a recipient reported delivered was positively accepted by the next hop for that marker
+ (f) SAFETY     a recipient reported delivered was positively accepted by the next hop for that marker; and the
+                other direction: a recipient reported failed *with a next-hop reply* was not accepted by the next hop
+                in that very transaction (client-made timeout replies are the legitimate uncertain case)
+ (g) ALIGNMENT  every reply is stamped by the next hop with the stage it answers; the reply slimta recorded for a
+                command must be the reply to that command (a reused connection whose reply stream is off by one)
 """
+import re
 import random
 import collections
 
@@ -53,14 +58,16 @@ RULE = ('case = (mode smtp|lmtp|http, pool_size, idle_timeout, ncallers, fault m
         'decisions are a pure hash of (seed, connection, transaction, stage); the harness plan (bursts, gate releases, '
         'naps) is drawn from the seed. non-trivial = bounded pool with more callers than pool_size and >= 1 applied '
         'fault or idle expiry; distinct by (mode, pool_size, idle, ncallers, fault mix)')
-ASSUMPTIONS = ['RelayPool.kill() and MxSmtpRelay (per-destination static relays) are outside the explored workload',
+ASSUMPTIONS = ['in the "late" stratum the relay runs with command_timeout 0.06 s and the next hop answers 0.15 s late: '
+               'client-made timeout results are expected there and are not judged as foreign/failed-though-accepted',
+               'RelayPool.kill() and MxSmtpRelay (per-destination static relays) are outside the explored workload',
                'slimta command/connect timeouts (4 s) never fire: every scripted delay / gate hold is far shorter, '
                'except the HttpRelay request timeout which is scripted to fire deliberately',
                'a transaction that ended with an accepted end-of-data (even if some RCPTs were refused) is not a '
                'failed transaction; failed = MAIL refused, no RCPT accepted, DATA refused, or end-of-data refused '
                '(LMTP: for any recipient)',
                'live connection = open at both ends (a connection the next hop has already closed does not count)']
-REQUIRED_HITS = ['bound-observed', 'results-attributed', 'quiescence-judged', 'deque-invariant-checked',
+REQUIRED_HITS = ['reply-alignment-checked', 'late-rset-with-followers-queued', 'bound-observed', 'results-attributed', 'quiescence-judged', 'deque-invariant-checked',
                  'reset-after-failure-checked', 'reuse', 'idle-expiry', 'requeue', 'respawn-after-last-exit',
                  'delivered-crosschecked']
 SHARDS = {'quick': 12, 'thorough': 16}
@@ -134,6 +141,11 @@ def _owner(addr):
         return None
 
 
+STAGE_OF_CMD = {b'MAIL': 'mail', b'RCPT': 'rcpt', b'DATA': 'data', b'[SEND_DATA]': 'eod', b'[BANNER]': 'banner',
+                b'EHLO': 'ehlo', b'LHLO': 'ehlo', b'HELO': 'helo', b'RSET': 'rset', b'QUIT': 'quit'}
+STAGE_STAMP = re.compile(r'(?<= )@([a-z]+)\d*')     # addresses never have a blank before '@'
+
+
 def _exc_class(e):
     """stable classes of what killed a pool client"""
     import http.client
@@ -173,6 +185,13 @@ def judge(lab, out, R):
             for t in c.txns:
                 if t['accepted'] and t['marker']:
                     accepted[t['marker']].update(t['rcpts'])
+    accepted_in = collections.defaultdict(list)      # marker -> [(conn, txn, recipients accepted at end-of-data)]
+    if lab.ds is not None:
+        for dc in lab.ds.conns:
+            for n, t in enumerate(dc.txns):
+                ok = set(r for r in t['rcpts_accepted'] if t['eod'].get(r))
+                if ok and t['marker']:
+                    accepted_in[t['marker']].append((dc.n, n, ok))
     for c in lab.callers:
         if not c.done:
             continue
@@ -188,6 +207,33 @@ def judge(lab, out, R):
                 R.count('result-item-without-reply')
                 continue
             text = '%s %s' % (reply.code, reply.message)
+            # ---- reply-stream alignment: the reply stored for command X must be the one the next hop sent for X
+            st = STAGE_STAMP.search(text)
+            want = STAGE_OF_CMD.get(reply.command)
+            if st and want:
+                R.hit('reply-alignment-checked')
+                if st.group(1) != want:
+                    viol('reply-stream-shifted/%s' % mode,
+                         'the reply recorded for one command is the next hop\'s reply to another command '
+                         '(reply stream of a reused connection out of step)',
+                         {'caller': c.marker, 'command': reply.command, 'reply': text,
+                          'command_stage': want, 'reply_answers_stage': st.group(1)})
+            # ---- reported failed although the next hop accepted that very transaction
+            if is_err and lab.ds is not None:
+                failed_rcpts = set(c.rcpts) if rcpt is None else {rcpt}
+                server_made = '[c' in text or STAGE_STAMP.search(text) is not None
+                for cn_, tn_, okset in accepted_in.get(c.marker, ()):
+                    hit = failed_rcpts & okset
+                    if not hit:
+                        continue
+                    if not server_made or (cn_, tn_) in lab.late_keys:
+                        R.count('reported-failed-after-own-timeout-although-accepted')
+                        continue
+                    viol('accepted-but-reported-failed/%s' % mode,
+                         'attempt reported failed with a next-hop reply although the next hop accepted this very '
+                         'transaction (a retry would deliver twice)',
+                         {'caller': c.marker, 'rcpts': sorted(hit), 'reply': text, 'command': reply.command,
+                          'accepted_in': [cn_, tn_]})
             m = P.TAG.search(text)
             if not m:
                 R.count('result-reply-untagged')
@@ -316,8 +362,9 @@ def run_case(case, R):
         R.hit('idle-expiry', lab.cnt['idle-expiry'])
         R.hit('requeue', lab.cnt['requeue'])
         R.hit('respawn-after-last-exit', lab.cnt['respawn'])
+        R.hit('late-rset-with-followers-queued', lab.cnt['late-rset-with-followers-queued'])
         for k, v in lab.cnt.items():
-            if k.startswith(('fault:', 'gate:', 'idle-expiry-', 'race:', 'snipe')):
+            if k.startswith(('fault:', 'gate:', 'idle-expiry-', 'race:', 'snipe', 'late-')):
                 R.count(k, v)
         if case['idle'] and out['open_left'] and not out['stranded']:
             R.count('connections-still-open-after-idle-timeout', out['open_left'])
